@@ -1738,6 +1738,8 @@ func (self *LockDB) doTimeOut(lock *Lock, forcedExpried bool, removeWaited bool)
 				lockManager.ProcessExecuteLockCommand(lock, protocol.LOCK_DATA_STAGE_TIMEOUT)
 			}
 		}
+		// answered here: an acknowledgement that arrives later only drops its reference
+		lock.ackCount = 0xff
 		if lock.isAof {
 			_ = lockManager.PushUnLockAof(lockManager.dbId, lock, lockCommand, nil, false, AOF_FLAG_TIMEOUTED)
 		}
